@@ -13,9 +13,13 @@ git -C /repo worktree remove --force $wt >/dev/null 2>&1
 rm -rf $wt $vd
 git -C /repo worktree prune
 git -C /repo worktree add -q --detach $wt HEAD || { echo "$n: worktree failed"; exit 9; }
-if ! git -C $wt apply "$d/patch.diff"; then
-  echo "$n patch does not apply"
-  git -C /repo worktree remove --force $wt; exit 8
+if ! git -C $wt apply "$d/patch.diff" 2>/dev/null; then
+  # changes of early rounds were written against the tree before some repairs; a version
+  # rebased by hand onto the repaired tree may sit next to the original
+  if [ ! -f "$d/patch.rebased.diff" ] || ! git -C $wt apply "$d/patch.rebased.diff"; then
+    echo "$n patch does not apply"
+    git -C /repo worktree remove --force $wt; exit 8
+  fi
 fi
 mkdir -p $vd
 rsync -a --exclude .git --exclude seeded --exclude replays --exclude evidence /verif/ $vd/
